@@ -27,12 +27,14 @@ def run(chk):
     types = m.enumerators("json_type")
     chk.require({("json_type_" + k): v for k, v in TYPES.items()} == types, "enum json_type changed: %s" % types)
     r1(chk, prog, m)
-    c11.r6(chk, prog, m)
+    with chk.shared():
+        c11.r6(chk, prog, m)
     r3(chk, prog, m)
     r4(chk, prog, m)
     r5(chk, prog, m)
     r6(chk, prog, m)
-    c11.r7(chk, prog, prog.module("json_object.c"))   # shared: the sign-encoded string length is decoded before use
+    with chk.shared():
+        c11.r7(chk, prog, prog.module("json_object.c"))   # shared: the sign-encoded string length is decoded before use
     chk.undecided_clauses += [
         "reflexivity / symmetry / transitivity as relations over all trees (follow from the per-kind tables plus the container rules only "
         "by induction over tree depth, which is argued, not mechanised, here)",
